@@ -1,6 +1,7 @@
 package main
 
 import (
+	"os"
 	"math/big"
 	"sort"
 )
@@ -70,7 +71,13 @@ func ctBuild(cs []ctCase) *Term {
 }
 
 // ctIte is Ite(c, a, b) on two guarded constants.
+var noCT = os.Getenv("VERIF_NOCT") != "" // set from Spec.ConstTrees in main (VERIF_CT=1 / VERIF_NOCT=1 override)
+var noBIte = os.Getenv("VERIF_NOBITE") != ""
+
 func ctIte(c, a, b *Term) *Term {
+	if noCT {
+		return nil
+	}
 	ca, cb := ctCasesOf(a), ctCasesOf(b)
 	if ca == nil || cb == nil || len(ca)+len(cb) > ctMaxCases {
 		return nil
@@ -88,6 +95,9 @@ func ctIte(c, a, b *Term) *Term {
 
 // ctLiftable reports whether a binary operation on a and b should be evaluated case by case.
 func ctLiftable(a, b *Term) bool {
+	if noCT {
+		return false
+	}
 	la, lb := a.ctLeaves(), b.ctLeaves()
 	return la > 0 && lb > 0 && (la > 1 || lb > 1) && la*lb <= 4*ctMaxCases
 }
